@@ -324,7 +324,11 @@ def Toy.step (proposer : Nat → Bool) (app : Nat → Nat) (t : Toy) (i : Input)
     | some h =>
       if h < t.height then (t, [])
       else if !t.started then (t, [])
-      else if h > t.height then (t, [.writeWAL (i.toEntry t.height)])
+      else if h > t.height then
+        -- a timeout of another height is ignored, a message of a future height is logged
+        (match i with
+         | .timeout .. => (t, [])
+         | _ => (t, [.writeWAL (i.toEntry t.height)]))
       else
         let r := t.onMsg i
         (r.1, .writeWAL (i.toEntry t.height) :: r.2)
